@@ -70,8 +70,13 @@ impl<'a> ParameterValueDisplay<'a> for &str {
     if self.is_empty() {
       return write_fmt_to_cursor(c, format_args!("\\\"\\\""));
     }
+    // A value that begins like an escaped string must be escaped, or it would be decoded as one.
+    let looks_escaped = {
+      let mut chars = self.chars();
+      chars.next() == Some('\\') && chars.next().is_some_and(|c| ESC_CHAR.contains(&c))
+    };
     // If the value doesn't contain any whitespace, we can write it directly.
-    if self.find(|c| [' ', '\t', '\x0b', '\x0c', '\r'].contains(&c)).is_none() {
+    if !looks_escaped && self.find(|c| [' ', '\t', '\x0b', '\x0c', '\r'].contains(&c)).is_none() {
       return write_fmt_to_cursor(c, format_args!("{}", self));
     }
     for esc_char in ESC_CHAR.iter() {
